@@ -1,28 +1,28 @@
 import Dashu.Proofs.Cross.OracleSound
 import Dashu.Proofs.Cross.Filter
+import Dashu.Model.Cross.Pre
 /-
-  C14 proofs — the hypotheses of the `…_partial` theorems about `AbsOrd` between FBig and UBig/IBig
-  are needed: concrete inputs on which the mirrored code, run with a SOUND oracle, contradicts the
-  specification (these are the recorded defects; the same inputs fail on the real code, see
-  corpus/C14/float_abs_negative.case).
+  C14 proofs — AS-IS statements about the code BEFORE fix 2670e13 (`Model/Cross/Pre.lean`): concrete
+  inputs on which the old `AbsOrd` between FBig and UBig/IBig, run with a SOUND oracle, contradicts
+  the specification (corpus/C14/float_abs_negative.case reproduced them on the real code).
 -/
 namespace Dashu.Model.Cross
 
 /-- `FBig(-5).abs_cmp(UBig 5)` is `Less` (required: `Equal`) -/
-theorem floatReprCmpUbig_abs_counterexample :
-    Oracle.noFilter.Sound ∧ floatReprCmpUbig Oracle.noFilter true 2 (-5) 0 5 = .lt ∧
+theorem floatReprCmpUbigPre_abs_counterexample :
+    Oracle.noFilter.Sound ∧ floatReprCmpUbigPre Oracle.noFilter true 2 (-5) 0 5 = .lt ∧
       XVal.absCmp (Num.fbig 2 (-5) 0 3).value (Num.ubig 5).value = some .eq :=
   ⟨Oracle.noFilter_sound, by decide, by decide⟩
 
 /-- `FBig(5).abs_cmp(IBig -5)` is `Greater` (required: `Equal`) -/
-theorem floatReprCmpIbig_abs_counterexample :
-    Oracle.noFilter.Sound ∧ floatReprCmpIbig Oracle.noFilter true 2 5 0 (-5) = .gt ∧
+theorem floatReprCmpIbigPre_abs_counterexample :
+    Oracle.noFilter.Sound ∧ floatReprCmpIbigPre Oracle.noFilter true 2 5 0 (-5) = .gt ∧
       XVal.absCmp (Num.fbig 2 5 0 3).value (Num.ibig (-5)).value = some .eq :=
   ⟨Oracle.noFilter_sound, by decide, by decide⟩
 
 /-- the same with the bit-length oracle the driver uses: the estimates of 5 and -5 overlap -/
-theorem floatReprCmpUbig_abs_counterexample_coarse :
-    Oracle.coarse.Sound ∧ floatReprCmpUbig Oracle.coarse true 2 (-5) 0 5 = .lt :=
+theorem floatReprCmpUbigPre_abs_counterexample_coarse :
+    Oracle.coarse.Sound ∧ floatReprCmpUbigPre Oracle.coarse true 2 (-5) 0 5 = .lt :=
   ⟨Oracle.coarse_sound, by decide +kernel⟩
 
 end Dashu.Model.Cross
